@@ -115,7 +115,7 @@ PROPS = {
         level="exploration",
         technique="stateful simulation-based property testing: generated request / reference / async / observe / time-jump / teardown histories from up to 50 scripted peers against a libcoap server (and client) on a virtual network; event and handler log against a session model, typed-allocation table, ASan and LeakSanitizer as lifetime oracle",
         level_text="Generated histories of 3..40 operations, session_timeout and max_idle_sessions from the tape, virtual time jumps around and across the session timeout, teardown wherever the history ends.",
-        level_note="Trusted base: sim/sim.cc, sim/alloc.cc (ld --wrap of coap_malloc_type/coap_realloc_type/coap_free_type), the session model in props/C12.cc. A quarter of the cases use TCP connections (scenario C); in part of the cases block-wise transfers hang off the sessions and the virtual clock moves on inside library calls (tolerance 50 ms on 'deleted before its timeout'). DTLS sessions are C19's.",
+        level_note="Trusted base: sim/sim.cc, sim/alloc.cc (ld --wrap of coap_malloc_type/coap_realloc_type/coap_free_type), the session model in props/C12.cc. A quarter of the cases use TCP connections (scenario C); in part of the cases block-wise transfers hang off the sessions and the virtual clock moves on inside library calls (tolerance 50 ms wherever the model's time stamp of an event is compared with libcoap's). DTLS sessions are C19's.",
         quick=rcl(12, 8000, 410),
         thorough=rcl(14, 100000, 410),
         **SIM_ALLOC,
